@@ -15,6 +15,12 @@ driven by the harness (a `set` subclass whose pop/iteration order is the generat
 so orders that CPython's hashing would not produce are reached too; a share of the cases
 runs unpatched (natural order) through the oracle only.
 
+Second tie (translator): translate/aio_funs.py regenerates coq/theories/Gen/AioFuns.v from the source on
+every run (a genuine translation of the three functions into the statement AST of Aio/Syntax.v); Aio/Interp.v
+interprets it under the model's labels and Aio/Tie*.v prove (C19_tie_* in Props/C19.v) that for all label
+sequences the interpreter on the regenerated bodies = the hand-written model.  A change of the code in a
+tracked position changes the generated term and breaks a proof (or the translator) at once.
+
 Oracle: the property text stated directly on (source items, observed outputs).
 """
 from __future__ import annotations
@@ -30,7 +36,14 @@ from pathlib import Path
 from .. import common as C
 from ..common import Corr, Violation, cbool, clist, cnat, cz
 
+TRANSLATORS = ['aio_funs']    # Gen/AioFuns.v: merge_aiters / agen_with_wait / to_aiter as terms of Aio/Syntax.v
+
 TRUSTED_BASE = [
+    'translator translate/aio_funs.py (Python ast -> statement AST of coq/theories/Aio/Syntax.v; fail-closed) and the '
+    'semantics coq/theories/Aio/Interp.v given to that AST (continuation machine; sets of tasks as sorted lists; '
+    'asyncio.wait / ensure_future / Task.result / Task.exception / cancel as heap operations driven by the model\'s '
+    'labels); the C19_tie_* theorems prove that this semantics of the REGENERATED bodies equals Aio/Model.v for all '
+    'label sequences',
     'correspondence harness harness/props/c19.py (gated sources, event log -> model labels, schedule generators)',
     'harness stub around asyncio.wait: returns the same done/pending sets, the done set being a set subclass whose '
     'pop()/iteration order is the generated one (any order is a legal behaviour of a Python set)',
